@@ -33,6 +33,7 @@ class Chooser:
         self.state_hook = None  # called at every *fresh* choice point (explicit-state mode)
         self.expect: list[tuple[str, int]] | None = None  # kinds/arity expected while replaying
         self.unowned_draws = 0
+        self.last_weights = None
         self.max_points = 100000
 
     def reset(self, prefix, expect=None):
@@ -40,7 +41,9 @@ class Chooser:
         self.trace = []
         self.expect = expect
 
-    def choose(self, n: int, kind: str) -> int:
+    def choose(self, n: int, kind: str, weights=None) -> int:
+        """one choice point of arity n; `weights` (len n, sum 1) only matter to the Markov-chain analysis"""
+        self.last_weights = weights
         n = int(n)
         if n < 1:
             raise HarnessError(f"choice point with arity {n} ({kind})")
@@ -243,9 +246,11 @@ class NpRandomShim:
         return out.reshape(shape)
 
     def choice(self, a, size=None, replace=True, p=None):
-        if p is not None:
+        if p is not None and (size is not None):
             CH.unowned_draws += 1
             return _fallback.choice(a, size=size, replace=replace, p=p)
+        if p is not None:
+            p = [float(x) for x in _np.asarray(p).ravel()]
         if isinstance(a, (int, _np.integer)):
             n = int(a)
             pick = lambda k: k  # noqa: E731
@@ -258,6 +263,10 @@ class NpRandomShim:
             if n == 0:
                 raise ValueError("'a' cannot be empty unless no samples are taken")
         if size is None:
+            if p is not None:
+                if len(p) != n:
+                    raise ValueError("'a' and 'p' must have same size")
+                return pick(CH.choose(n, "np.random.choice[p]", weights=tuple(p)))
             return pick(CH.choose(n, "np.random.choice"))
         if not isinstance(size, (int, _np.integer)):
             CH.unowned_draws += 1
